@@ -1,9 +1,9 @@
 package main
 
 import (
-	"go/types"
 	"fmt"
 	"go/token"
+	"go/types"
 	"strings"
 
 	"golang.org/x/tools/go/ssa"
@@ -472,7 +472,6 @@ func firstBlockOf(stores []*ssa.Store, fn *ssa.Function) *ssa.BasicBlock {
 	}
 	return fn.Blocks[0]
 }
-
 
 // enumSize counts the constants declared with the named type pkg.name.
 func (w *World) enumSize(pkg, name string) int {
